@@ -178,6 +178,9 @@ class RerunConverges(FlowBase):
             return out
         if g.get("rr") is None:
             return []
+        if g["off"] and move[0] == "rerun" and res.exc is None:
+            # the reference is off (with-items): still remember what the latest request was
+            g["rr"]["requested_explicit"] = bool(move[1])
         # ---- after an accepted rerun
         if res.exc is not None and move[0] != "req":
             act = res.extra.get("action")
